@@ -25,6 +25,10 @@ type Params struct {
 	// GoexitAt: the call for this index ends its goroutine with runtime.Goexit (as t.Fatal inside f
 	// does) instead of returning; 0 = none (index 0 never does)
 	GoexitAt int
+	// BlockOthers: calls that do not fail return only once the context they were handed has ended
+	// (work that honours cancellation): the cancellation caused by the failing call has to reach them
+	// while they run, or the function never returns
+	BlockOthers bool
 }
 
 func (p Params) Name() string {
@@ -34,6 +38,9 @@ func (p Params) Name() string {
 	}
 	if p.GoexitAt > 0 {
 		s += fmt.Sprintf("/f(%d)-calls-Goexit", p.GoexitAt)
+	}
+	if p.BlockOthers {
+		s += "/other-calls-wait-for-cancellation"
 	}
 	return s
 }
@@ -109,6 +116,9 @@ func (p Params) Body() func() {
 				}
 			})
 			hx.Yield()
+			if p.BlockOthers && fctx != nil && !failSet[i] {
+				<-fctx.Done()
+			}
 			hx.Atomically(func() {
 				active--
 				exited++
@@ -282,6 +292,10 @@ func All() []Params {
 		Params{Variant: "DoContext", N: 3, P: 2, Fail: []int{1}, Ctx: "live", Procs: 2, FailWrapsCanceled: true},
 		Params{Variant: "MapContext", N: 2, P: 2, Fail: []int{0}, Ctx: "live", Procs: 2, FailWrapsCanceled: true},
 		Params{Variant: "DoContext", N: 2, P: 1, Fail: []int{1}, Ctx: "live", Procs: 2, FailWrapsCanceled: true},
+		// the other calls run until they are cancelled
+		Params{Variant: "DoContext", N: 2, P: 2, Fail: []int{0}, Ctx: "live", Procs: 2, BlockOthers: true},
+		Params{Variant: "DoContext", N: 3, P: 2, Fail: []int{0}, Ctx: "live", Procs: 2, BlockOthers: true},
+		Params{Variant: "MapContext", N: 3, P: 3, Fail: []int{1}, Ctx: "live", Procs: 2, BlockOthers: true},
 		// a call that ends its goroutine: the function still returns, the other indices are still served
 		Params{Variant: "Do", N: 3, P: 2, Ctx: "live", Procs: 2, GoexitAt: 1},
 		Params{Variant: "Map", N: 4, P: 3, Ctx: "live", Procs: 2, GoexitAt: 2},
